@@ -31,3 +31,6 @@ def run(chk):
     if thorough or False:
         livetests.run(chk)   # the repository's own scenario tests, traced and validated against the same contract
     chk.assumptions += N.ASSUME + ["the control-plane refusal of STORE TTLs outside the window is exercised by the C28 check (clause C28.accepted-bad-ttl) on the real ControlServer"]
+
+
+from replaykit import replay  # noqa: E402,F401
